@@ -9,7 +9,7 @@ import sexp
 
 DEF = [b'cardinal', b'decimal', b'none', b'symbol', b'true', b'none', b'none', b'none', b'none', b'none']
 ALL_FUNCS = [b'NUMBER', b'IDENTITY', b'CONCAT', b'FAIL', b'NONE', b'COUNT', b'CUSTOM', b'NUM']
-LOCALES = [b'en', b'en-US', b'pl', b'fr', b'ar', b'ja', b'lt', b'cs', b'ru', b'xx']
+LOCALES = [b'en', b'en-US', b'pl', b'fr', b'ar', b'ja', b'lt', b'cs', b'ru', b'xx', b'nn', b'eo', b'lb']
 FSI = '⁨'
 PDI = '⁩'
 MAXP = 100
@@ -241,6 +241,13 @@ def gen_graphs(rng, tier):
                 ftl_t = '-lol0 = lol\n' + ''.join('-lol%d = %s\n' % (d, ('{ -lol%d }' % (d - 1)) * arity) for d in range(1, depth + 1)) + \
                         'm = a{ CONCAT(%s) }\n' % ', '.join(['-lol%d' % depth] * 3)
                 cases.append(Case([ftl_t], msg('m'), None))
+    # amplification through term parameters (D32): a named argument whose value is a REFERENCE, not a literal, hands the whole resolved
+    # string to the term, which can print it several times per level; no limit trips, the output grows as arity^depth
+    for arity, depth in ((2, 6), (3, 5), (3, 13), (2, 20)):
+        ftl = '-t = ' + '{$x}' * arity + '\nm0 = ab\n' + ''.join('m%d = { -t(x: m%d) }\n' % (i, i - 1) for i in range(1, depth + 1))
+        cases.append(Case([ftl], msg('m%d' % depth), None, iso=False))
+    ftl = '-t = {$x}{$x}{$x}\nm0 = ab\n' + ''.join('m%d = { -t(x: IDENTITY(m%d)) }\n' % (i, i - 1) for i in range(1, 13))
+    cases.append(Case([ftl], msg('m12'), None, iso=False))
     # fan-out through select variants, attributes and call arguments
     ftl = 'lol0 = lol\n' + ''.join(
         'lol%d = { $n ->\n    [one] %s\n   *[other] %s\n }\n    .a = %s\n' % (d, ('{ lol%d }' % (d - 1)) * 4, ('{ lol%d.a }' % (d - 1)) * 5 if d > 1 else 'x',
@@ -347,7 +354,7 @@ def gen_selects(rng, tier):
         [b'none', b'error', [b'custom', b'c1']] + [mnum(float(i)) for i in list(range(0, 26)) + [100, 101, 102, 111, 1000000]] + \
         [mnum(x, opts(mfd=m)) for x in (0.0, 1.0, 2.0, 5.0) for m in (0, 1, 2)] + \
         [mnum(float(i), opts(ty=b'ordinal')) for i in (1, 2, 3, 4, 11, 12, 13, 21, 22, 23, 101, 111)]
-    locs = LOCALES if tier != 'quick' else [b'en', b'pl', b'ar', b'lt', b'fr', b'cs', b'ru', b'ja']
+    locs = LOCALES if tier != 'quick' else [b'en', b'pl', b'ar', b'lt', b'fr', b'cs', b'ru', b'ja', b'nn', b'eo']
     j = 0
     for ks in KEYSETS:
         body = ''.join('    %s{ $n }\n' % k if i % 2 == 0 else '    %s\n' % k for i, k in enumerate(ks))
@@ -364,6 +371,8 @@ def gen_selects(rng, tier):
     for i in (0, 1, 2, 3, 4, 5, 11, 12, 21, 22, 23, 101):
         for e in ('o', 'c'):
             cases.append(Case([two], msg(e), [('n', mnum(float(i)))], locales=[b'en' if i % 2 else b'pl']))
+            # languages with cardinal but without ordinal rules: the ordinal request must fall back, not fail
+            cases.append(Case([two], msg(e), [('n', mnum(float(i)))], locales=[(b'nn', b'eo', b'lb')[i % 3]]))
     # literal selectors and function results
     for sel in ('1', '1.0', '1.00', '0', '2', '5', '11', '-1', '1.5', '1.00000000000000000000', '0.000000000000000000000', '2.0000000000000000000000',
                 '"one"', '"John"', 'NUM()', 'NUM(1)', 'NUM(1, 2)', 'CUSTOM("a")', 'FAIL()', 'NONE()', 'CONCAT("o", "ne")', 'NUMBER(1, minimumFractionDigits: 20)',
